@@ -26,8 +26,12 @@ ACCESS = _mods(r"(planar\.(x|y|rho|rho2|phi)|spatial\.(z|theta|eta|mag|mag2)|lor
 
 # property -> [(source property module, {source rule: name here}, why, construct filter or None)]
 SHARED = {
+    "C01": [
+        ("c15", {"C15.replace-data": "C01.replace-data"}, "an in-place result is stored back in the accumulator's own coordinate system: the conversion must read the result's coordinates by name", None),
+        ("c03", {"C03.value-preserving-fill": "C01.wrap-fill"}, "a constant result component (rho = 1 of a unit vector) must reach the array unchanged in every coordinate system", None),
+    ],
     "C02": [
-        ("c01", {"C01.base-agreement": "C02.native-variants", "C01.dispatch-args": "C02.dispatch-arguments"},
+        ("c01", {"C01.base-agreement": "C02.native-variants", "C01.dispatch-args": "C02.dispatch-arguments", "C01.template": "C02.variants"},
          "a variant that does not denote its Cartesian kernel, or a dispatcher that feeds the kernel the wrong scalar, does not compute the documented definition", None),
         ("c10", {"C10.euler-composition": "C02.euler-convention", "C10.handedness": "C02.handedness", "C10.quaternion-equals-axis": "C02.quaternion-convention"},
          "the ROOT Euler-angle / quaternion conventions and handedness are part of the documented definitions", None),
@@ -36,6 +40,7 @@ SHARED = {
     "C03": [
         ("c14", {"C14.awkward-fields": "C03.awkward-field-classes"}, "the Awkward backend must read each stored field as the coordinate the other backends read", None),
         ("c05", {"C05.counted-operands": "C03.result-handler"}, "element i of an array result exists only if the array operand's backend wraps the result", None),
+        ("c18", {"C18.transform-binding": "C03.transform-binding"}, "Awkward operands reach the kernel through ak.transform: each must be bound to its own kernel parameter", None),
     ],
     "C04": [
         ("c03", {"C03.wrap-spec": "C04.wrap-spec", "C03.value-preserving-fill": "C04.value-preserving-fill", "C03.scalar-promotion": "C04.scalar-promotion", "C03.wrap-awkward": "C04.wrap-awkward"},
@@ -43,7 +48,7 @@ SHARED = {
         ("c18", {"C18.transform-flag": "C04.identity-kernels-untransformed"}, "an identity accessor run through ak.transform no longer returns the stored column unchanged", None),
     ],
     "C05": [
-        ("c03", {"C03.wrap-spec": "C05.wrap-class"}, "the result class (flavor, dimension) is chosen inside _wrap_result from the flavor class it is given", None),
+        ("c03", {"C03.wrap-spec": "C05.wrap-class", "C03.value-preserving-fill": "C05.wrap-promotion"}, "the result class (flavor, dimension) and whether a record or an array comes back are decided inside _wrap_result", None),
         ("c10", {"C10.euler-table": "C05.euler-table"}, "every method is defined for every coordinate system and every axis order", None),
         ("c18", {"C18.behavior-classes": "C05.behavior-classes"}, "the Awkward record/array class of a result is looked up in the behavior table", None),
     ],
@@ -63,6 +68,7 @@ SHARED = {
          "the boost laws are proved on the Cartesian kernels; every other variant must denote them and be wrapped with the documented operands", BOOST),
         ("c07", {"C07.kernel-arguments": "C09.numba-kernel-arguments"}, "boosts inside numba.njit call the same kernels", BOOST),
         ("c03", {"C03.wrap-spec": "C09.wrap-spec"}, "a boosted array is assembled by _wrap_result (each result column with its own dtype, stored groups passed through)", None),
+        ("c05", {"C05.dimension-guards": "C09.dimension-guards"}, "the boosts reject operands of the wrong dimension", BOOST),
     ],
     "C10": [
         ("c01", {"C01.base-agreement": "C10.variants", "C01.dispatch-wrap": "C10.dispatch-wrap"}, "rotation laws are proved on the Cartesian kernels; the dispatcher decides what wraps the result (time untouched)", ROT),
@@ -71,6 +77,7 @@ SHARED = {
         ("c03", {"C03.wrap-spec": "C10.wrap-spec"}, "a rotated array is assembled by _wrap_result; time / proper time are passed through there", None),
     ],
     "C11": [
+        ("c03", {"C03.wrap-spec": "C11.wrap-spec"}, "sums, differences and multiples of arrays are assembled by _wrap_result: each result column with its own dtype", None),
         ("c01", {"C01.result-representable": "C11.result-representable"}, "a - b + b == a needs the time component's sign: a tau-class result of a t-stored operand loses it", ARITH),
     ],
     "C12": [
@@ -79,17 +86,20 @@ SHARED = {
         ("c17", {"C17.numpy-routing": "C12.numpy-function-routing"}, "numpy.isclose / numpy.allclose reach the methods through __array_function__ with the operands in order", None),
     ],
     "C13": [
+        ("c05", {"C05.defaults-agree": "C13.default-tolerance"}, "the predicates' default tolerances are the documented ones (the protocol signature)", PRED),
         ("c01", {"C01.template": "C13.variants", "C01.base-agreement": "C13.native-variants"}, "the predicate shapes are decided per variant on lifted symbols; each variant must compute those symbols from its own operands", PRED),
     ],
     "C14": [
         ("c05", {"C05.operators": "C14.operator-tables"}, "the flavor never changes a number: Momentum rows of the ufunc/behavior tables equal the Vector rows", None),
         ("c06", {"C06.check-names": "C14.constructor-synonyms"}, "constructing through a synonym stores the value under the geometric coordinate", None),
+        ("c04", {"C04.to-system-momentum": "C14.momentum-conversions"}, "the to_pxpy... conversions equal their geometric counterparts, keyword for keyword", None),
     ],
     "C15": [
         ("c01", {"C01.result-representable": "C15.result-representable", "C01.base-agreement": "C15.kernels"}, "+= / -= / *= equal the functional add / subtract / scale, whose variants must be right for the in-place result to be", ARITH),
     ],
     "C16": [
         ("c15", {"C15.ufunc-out": "C16.ufunc-out"}, "numpy.<ufunc>(a, b, out=c) must fill c, not an input", None),
+        ("c20", {"C20.behavior-copied": "C16.behavior-copied"}, "vector.Array(akarray) must not write into the behavior mapping of its argument", None),
     ],
     "C17": [
         ("c13", {"C13.singular-points": "C17.zero-vector-conventions"}, "count_nonzero and sums of padded arrays rely on the accessors' values for the zero vector", ACCESS),
@@ -98,15 +108,25 @@ SHARED = {
     "C18": [
         ("c01", {"C01.dispatch-wrap": "C18.num-vecargs"}, "num_vecargs decides whether the Awkward wrapper carries the operand's extra fields", None),
         ("c05", {"C05.class-links": "C18.class-links", "C05.counted-operands": "C18.counted-operands"}, "a record selected from an array must map to the same projection / flavor classes as the array", None),
+        ("c06", {"C06.extra-fields": "C18.extra-fields-constructed"}, "a field can only be carried through operations if the constructor kept it", None),
     ],
     "C19": [
+        ("c06", {"C06.coordinate-dtypes": "C19.coordinate-dtypes"}, "every slice, mask, reshape and view re-validates the dtype in __array_finalize__: unsigned and narrow types must keep passing", None),
         ("c14", {"C14.numpy-item": "C19.item-access", "C14.numpy-finalize": "C19.finalize", "C14.tables": "C19.synonym-tables"},
          "indexing a NumPy vector array with a coordinate name or synonym goes through _getitem/_setitem and the synonym tables", None),
     ],
 }
 
 
+# rules applied by calling the rule function directly (cheap, no other check has to run)
+KERNEL_PROPS = ("C01", "C02", "C08", "C09", "C10", "C11", "C12", "C13", "C15", "C17")
+
+
 def apply(ctx, prop):
+    if prop in KERNEL_PROPS:
+        from .props import c03
+
+        c03._duck_typed_kernels(ctx, f"{prop}.duck-typed-kernels")
     for modname, mapping, why, flt in SHARED.get(prop, []):
         mod = importlib.import_module(f"verifstat.props.{modname}")
         ctx.include(mod.run, mapping, why, flt)
